@@ -479,6 +479,23 @@ def gen_mprog(rng, nops):
     return {"spec": spec, "ops": ops, "stream": "model"}
 
 
+def gen_lazy_mprog(rng, nops):
+    """model-level histories over a lazy stack of TensorDicts: only the lazy stack's own memoised methods are read at the stack
+    (names, _key_list, _has_exclusive_keys, _get_str); writes go through the members"""
+    from .c06 import gen_spec
+    spec = gen_spec(rng, "lazyroot")
+    nm = len(spec["root"]["members"])
+    ops = []
+    for _ in range(nops):
+        k = rng.choice(["read"] * 6 + ["inplace", "inplace", "lock", "unlock", "names", "names", "set", "gc"])
+        node = rng.choice([0, 0, 0] + list(range(1, 1 + nm))) if k != "read" else 0
+        if k == "set":
+            node = rng.randrange(1, 1 + nm)
+        ops.append({"op": k, "node": node, "which": rng.randrange(0, 64), "leaf": rng.randrange(0, 9), "v": rng.randrange(1, 9), "sem": 0, "reuse": 0,
+                    "lazy_read": True})
+    return {"spec": spec, "ops": ops, "stream": "model"}
+
+
 def _run_m(prog):
     import signal
     torch.set_num_threads(1)
@@ -543,7 +560,7 @@ def compare(prog, impl, model):
 def correspondence(R, procs):
     from .c06 import _pool_map
     n, nops = (160, 24) if R.quick else (2500, 36)
-    progs = [gen_mprog(R.rng, nops) for _ in range(n)]
+    progs = [gen_mprog(R.rng, nops) for _ in range(n)] + [gen_lazy_mprog(R.rng, 16) for _ in range(n // 4)]
     res = _pool_map(_run_m, progs, procs)
     lines, keep = [], []
     for r in res:
@@ -562,7 +579,7 @@ def correspondence(R, procs):
         key = hashlib.sha1(json.dumps(r["prog"], sort_keys=True).encode()).hexdigest()[:16]
         R.case("m" + key, nontrivial=len(r["impl"]) > 2)
         R.traces += 1
-        R.count("stream:model")
+        R.count("stream:model-lazy" if r["prog"]["spec"]["root"]["kind"] == "lazy" else "stream:model")
         for im in r["impl"]:
             R.count("mop:" + im["op"]["op"] + ":" + im["out"])
             if im["read"]:
